@@ -108,6 +108,24 @@ def case_lines(lay):
     return ls
 
 
+def in_compared_domain(lay):
+    """two frames at one instant, one of them empty, are outside the compared domain (DESIGN.md C17; the factory rejects empty
+    frames): the malformed kinds can produce them by accident"""
+    fs = lay["frames"]
+    for i, a in enumerate(fs):
+        for b in fs[i + 1:]:
+            if a[0] == b[0] and (a[0] == a[1] or b[0] == b[1]):
+                return False
+    return True
+
+
+def gen_compared(rng, malformed=False):
+    while True:
+        lay = gen_layout(rng, malformed)
+        if in_compared_domain(lay):
+            return lay
+
+
 def is_valid_layout(lay):
     fs = sorted(lay["frames"])
     for s, e, k in fs:
@@ -289,8 +307,8 @@ def run(tier, seed, replay=None):
         n_valid, n_bad = (300, 100) if tier == "quick" else (6000, 2000)
         layouts = load_corpus()
         ncorp = len(layouts)
-        layouts += [gen_layout(rng) for _ in range(n_valid)]
-        layouts += [gen_layout(rng, malformed=True) for _ in range(n_bad)]
+        layouts += [gen_compared(rng) for _ in range(n_valid)]
+        layouts += [gen_compared(rng, malformed=True) for _ in range(n_bad)]
     if not (okm and okh):
         C.report_violation(PID, {"property": PID, "kind": "obligation", "what": "build failed", "log": (logm + logh)[-3000:]}, False)
         ev.d["violations"] = 1
